@@ -161,6 +161,9 @@
 pub mod builder;
 pub mod scmp_handler;
 pub mod socket;
+/// Seam for deterministic simulation of the sockets.
+#[cfg(feature = "verif-hooks")]
+pub mod verif_socket;
 
 use std::{borrow::Cow, fmt, net, sync::Arc, time::Duration};
 
